@@ -18,6 +18,7 @@ from typing import Optional, TypeVar, Union
 import asynq
 from typing_extensions import Protocol
 
+from .analysis_lib import is_positional_only_arg_name
 from .error_code import ErrorCode
 from .node_visitor import ErrorContext
 from .options import Options, PyObjectSequenceOption
@@ -337,6 +338,15 @@ def compute_parameters(
                     error_code=ErrorCode.invalid_annotation,
                 )
 
+        if kind is ParameterKind.POSITIONAL_OR_KEYWORD and is_positional_only_arg_name(
+            arg.arg
+        ):
+            # PEP 484: a parameter named __x is positional-only, and so is everything
+            # before it. Matches ArgSpecCache.from_signature.
+            kind = ParameterKind.POSITIONAL_ONLY
+            params = [
+                replace(info, param=replace(info.param, kind=kind)) for info in params
+            ]
         param = SigParameter(arg.arg, kind, default, value)
         info = ParamInfo(param, arg, is_self)
         params.append(info)
